@@ -286,6 +286,31 @@ func main() {
 			curClient.Store(0)
 			core.VerifTsSwap(saved)
 		}
+		// ---- boundary probes: bring the server to an exact millisecond (batch threshold,
+		// last batch before it, last ms of a second, first of the next), then let a fresh
+		// logical client fetch there and use its batch while a direct caller takes the
+		// server's next values
+		for _, target := range []int64{495, 500, 999, 0} {
+			d := newCaller(id(2))
+			for i := 0; i < 3000 && lastNext.Load()%1000 != target; i++ {
+				d.record(db19.Timestamp())
+			}
+			saved := core.VerifTsSwap(core.VerifTsState{})
+			tr.Emit(vh.E("ClNew", "c", 1))
+			curClient.Store(1)
+			c := newCaller(id(3))
+			th := core.NewThread(nil)
+			c.record(th.Timestamp())
+			d.record(db19.Timestamp())
+			for i := 0; i < 7; i++ {
+				c.record(th.Timestamp())
+				if i%3 == 0 {
+					d.record(db19.Timestamp())
+				}
+			}
+			curClient.Store(0)
+			core.VerifTsSwap(saved)
+		}
 		time.Sleep(time.Duration(40+rnd.Intn(80)) * time.Millisecond)
 	}
 	// make sure something is handed out after the last tick that happened
